@@ -75,6 +75,14 @@ func (p *Scheduler) Run(ctx context.Context) error {
 
 	var proxyTask *lib.Task
 
+	// whatever ends the scheduler ends the relay with it: Proxy.Run must not go on
+	// (waiting to reconnect, reconnecting) for a session that is over
+	defer func() {
+		if proxyTask != nil {
+			<-proxyTask.Stop()
+		}
+	}()
+
 	for {
 		if p.proxy.GetDest().String() != p.primaryDest.String() {
 			err := p.proxy.SetDestWithoutAutoread(ctx, p.primaryDest, nil)
